@@ -62,18 +62,7 @@ func init() {
 				R.Floor("G.plain-return", len(full))
 			}
 
-			// counter store: only behind the MAC (D02 when violated)
-			if fld := a.MustField("keyPairCounter", "theirCounter"); fld != nil {
-				cnt := map[string]int{}
-				for _, st := range a.DirectStoresTo(fld) {
-					fn := a.C.Name(st.Parent())
-					if strings.HasSuffix(fn, ".wipe") {
-						continue
-					}
-					a.Gate("G.counter-store", ordinalKey(fn+"|store theirCounter", cnt), st, "store of the peer's counter", auth...)
-				}
-				R.Floor("G.counter-store", len(auth))
-			}
+			a.counterStoreGate("G.counter-store", auth)
 
 			a.checkSignPolarity()
 			a.pickKeysTable()
@@ -305,4 +294,19 @@ func decisionsStr(p *Path) string {
 		s = append(s, d.Term)
 	}
 	return strings.Join(s, " ∧ ")
+}
+
+// counterStoreGate: the peer's counter is stored only behind the authenticity gate (D02 when violated).
+func (a *An) counterStoreGate(rule string, auth []string) {
+	if fld := a.MustField("keyPairCounter", "theirCounter"); fld != nil {
+		cnt := map[string]int{}
+		for _, st := range a.DirectStoresTo(fld) {
+			fn := a.C.Name(st.Parent())
+			if strings.HasSuffix(fn, ".wipe") {
+				continue
+			}
+			a.Gate(rule, ordinalKey(fn+"|store theirCounter", cnt), st, "store of the peer's counter", auth...)
+		}
+		a.R.Floor(rule, len(auth))
+	}
 }
